@@ -364,6 +364,10 @@ def _run_case(case, exec_seed, exec_tape, stack):
                         st = res[o].store if o in res else None
                         if isinstance(st, StorageBase):
                             msk = np.asarray(np.ma.getdata(st.mask)).astype(bool)
+                            if msk.shape != tuple(shape):
+                                V("stored", "restricted-run-store-has-another-shape",
+                                  {"fixed": cfg["fixed"], "output": o, "store": list(msk.shape), "workload": list(shape)})
+                                break
                             got = {tuple(int(x) for x in e) for e in np.ndindex(*shape) if not msk[e]}
                             if got != sel:
                                 V("stored", "restricted-run-stored-other-elements-than-selected",
